@@ -12,12 +12,13 @@ function of the model.  It demands
                            child of that output that is in the pool afterwards carries all flow numbers of T
                            (T without flows, a transient object of a removed task, or a T that waits for a flow
                            merge spawn nothing) — the new child and the existing instance alike (union);
-* `flows-shrank`           an instance that stays in the pool never loses a flow number;
+* `flows-shrank`           an instance that stays in the pool (is not removed in the operation) never loses a flow number;
 * `flow-from-nowhere`      the flow numbers a pooled instance gains in an operation come from a parent that completed
                            an output in that operation, from the parentless predecessor of the instance, or from the
                            `--flow` option of the command; a new instance has only such flow numbers;
 * `rerun-in-flow`          no instance enters the pool in a flow in which the database already records it as finished
-                           (final status) with its completion condition satisfied;
+                           (final status) with its completion condition satisfied (an instance spawned in other flows,
+                           as its new database row shows, may get such a flow merged into it);
 * `flow-number-reused`     a flow started with `--flow=new` gets a number that no proxy or database row of the history
                            (restarts included) has carried before.
 -/
@@ -83,7 +84,9 @@ def judgeOp (g : Graph) (op : Json) (pre post : Ob) (used : List Nat) : Option S
   let cmdF : List Nat := match setc with | some c => cmdFlows c pre post | none => []
   let c2 := firstSome post.pool fun ct =>
     let old : List Nat := match pre.get? ct.key with | some t => t.fl | none => []
-    if !subset old ct.fl then some s!"flows-shrank: {showKey ct.key} had flows {old}, now {ct.fl}" else
+    -- (an instance that was removed and spawned again within the operation is another proxy)
+    if !subset old ct.fl && !post.removed.contains ct.key then
+      some s!"flows-shrank: {showKey ct.key} had flows {old}, now {ct.fl}" else
     let gained := ct.fl.filter fun f => !old.contains f
     if gained.isEmpty then none else
     let fromParents := (sp.filter fun (k, m, _) => (childKeys g k m).contains ct.key).flatMap fun e => e.2.2
@@ -111,8 +114,13 @@ def judgeOp (g : Graph) (op : Json) (pre post : Ob) (used : List Nat) : Option S
     match g.task? ct.key.2 with
     | none => none
     | some t =>
+      -- rows of the instance written in this operation: an instance that was spawned in other flows (a row of flows
+      -- that do not meet the finished ones) and got the finished flow merged into it within the same operation did
+      -- not enter the pool in the finished flow
+      let newRows := (post.rowsOf ct.key).filter fun r' => !((pre.rowsOf ct.key).any fun r0 => r0.fl == r'.fl)
       firstSome (pre.rowsOf ct.key) fun r =>
-        if meets r.fl ct.fl && finalSt r.st && evalCE r.outs t.completion then
+        if meets r.fl ct.fl && finalSt r.st && evalCE r.outs t.completion &&
+            !(newRows.any fun r' => !meets r'.fl r.fl) then
           some s!"rerun-in-flow: {showKey ct.key} entered the pool in flows {ct.fl} but the database records it {r.st} and complete in flows {r.fl}"
         else none
   -- a new flow is a fresh number
